@@ -255,21 +255,27 @@ theorem Link.snoc {pre : List Seg} {b : Seg} (h : Link pre)
     have : pre.length - 1 = i := by omega
     rw [this]; exact hx
 
-/-- Well-formedness of a segment list (the list part of the invariant). -/
-structure WF (segs : List Seg) : Prop where
+/-- Well-formedness of a segment list that may have offset gaps between segments (the part of
+the invariant shared by plain and compacted / trimmed logs): all lookups and readers only need
+this. -/
+structure WFC (segs : List Seg) : Prop where
   sorted : Sorted (segs.flatMap Seg.recs)
   base_le : ∀ s ∈ segs, 0 ≤ s.base ∧ ∀ r ∈ s.recs, s.base ≤ r.offset
   chain : segs.Pairwise (fun a b => a.nextOffset ≤ b.base ∧ a.base < b.base)
+
+/-- Well-formedness of a segment list (the list part of the invariant `Inv`): `WFC` plus exact
+links between consecutive segments. -/
+structure WF (segs : List Seg) : Prop extends WFC segs where
   link : Link segs
 
-theorem WF.segOK {segs : List Seg} (wf : WF segs) {s : Seg} (hs : s ∈ segs) : SegOK s := by
+theorem WFC.segOK {segs : List Seg} (wf : WFC segs) {s : Seg} (hs : s ∈ segs) : SegOK s := by
   refine ⟨(wf.base_le s hs).1, (wf.base_le s hs).2, ?_⟩
   obtain ⟨p, q, rfl⟩ := List.append_of_mem hs
   have := wf.sorted
   simp only [List.flatMap_append, List.flatMap_cons] at this
   exact (List.pairwise_append.mp (List.pairwise_append.mp this).2.1).1
 
-theorem WF.split {segs pre post : List Seg} {s : Seg} (wf : WF segs) (h : segs = pre ++ s :: post) :
+theorem WFC.split {segs pre post : List Seg} {s : Seg} (wf : WFC segs) (h : segs = pre ++ s :: post) :
     (∀ a ∈ pre, a.nextOffset ≤ s.base ∧ a.base < s.base) ∧
     (∀ b ∈ post, s.nextOffset ≤ b.base ∧ s.base < b.base) := by
   have := wf.chain
@@ -277,7 +283,7 @@ theorem WF.split {segs pre post : List Seg} {s : Seg} (wf : WF segs) (h : segs =
   refine ⟨fun a ha => this.2.2 a ha s (by simp), fun b hb => ?_⟩
   exact (List.pairwise_cons.mp this.2.1).1 b hb
 
-theorem WF.pre_lt {segs pre post : List Seg} {s : Seg} (wf : WF segs) (h : segs = pre ++ s :: post) :
+theorem WFC.pre_lt {segs pre post : List Seg} {s : Seg} (wf : WFC segs) (h : segs = pre ++ s :: post) :
     ∀ r ∈ pre.flatMap Seg.recs, r.offset < s.base := by
   intro r hr
   obtain ⟨a, ha, hra⟩ := List.mem_flatMap.mp hr
@@ -286,7 +292,7 @@ theorem WF.pre_lt {segs pre post : List Seg} {s : Seg} (wf : WF segs) (h : segs 
   have := ((wf.split h).1 a ha).1
   omega
 
-theorem WF.post_ge {segs pre post : List Seg} {s : Seg} (wf : WF segs) (h : segs = pre ++ s :: post) :
+theorem WFC.post_ge {segs pre post : List Seg} {s : Seg} (wf : WFC segs) (h : segs = pre ++ s :: post) :
     ∀ r ∈ post.flatMap Seg.recs, s.nextOffset ≤ r.offset := by
   intro r hr
   obtain ⟨b, hb, hrb⟩ := List.mem_flatMap.mp hr
@@ -295,7 +301,7 @@ theorem WF.post_ge {segs pre post : List Seg} {s : Seg} (wf : WF segs) (h : segs
   have := ((wf.split h).2 b hb).1
   omega
 
-theorem WF.mono_next {segs : List Seg} (wf : WF segs) (o : Int) :
+theorem WFC.mono_next {segs : List Seg} (wf : WFC segs) (o : Int) :
     Mono segs (fun s => Gen.Log.findSegmentCmp.evalInt s.nextOffset o) := by
   unfold Mono
   refine List.Pairwise.imp_of_mem ?_ wf.chain
@@ -304,7 +310,7 @@ theorem WF.mono_next {segs : List Seg} (wf : WF segs) (o : Int) :
   have := (wf.segOK hb).base_le_next
   omega
 
-theorem WF.mono_base {segs : List Seg} (wf : WF segs) (o : Int) :
+theorem WFC.mono_base {segs : List Seg} (wf : WFC segs) (o : Int) :
     Mono segs (fun s => Gen.Log.findSegmentByBaseCmp.evalInt s.base o) := by
   unfold Mono
   refine List.Pairwise.imp ?_ wf.chain
@@ -312,18 +318,25 @@ theorem WF.mono_base {segs : List Seg} (wf : WF segs) (o : Int) :
   simp only [Gen.Log.findSegmentByBaseCmp, Cmp.evalInt, decide_eq_true_eq]
   omega
 
-theorem WF.of_append {pre post : List Seg} (wf : WF (pre ++ post)) : WF pre := by
-  refine ⟨?_, fun s hs => wf.base_le s (by simp [hs]), (List.pairwise_append.mp wf.chain).1,
-    wf.link.of_append⟩
+theorem WFC.of_append {pre post : List Seg} (wf : WFC (pre ++ post)) : WFC pre := by
+  refine ⟨?_, fun s hs => wf.base_le s (by simp [hs]), (List.pairwise_append.mp wf.chain).1⟩
   have := wf.sorted
   rw [List.flatMap_append] at this
   exact (List.pairwise_append.mp this).1
 
-/-- Appending a well-formed segment that starts where the list ends. -/
-theorem WF.snoc {pre : List Seg} {b : Seg} (wf : WF pre) (ok : SegOK b)
-    (hc : ∀ a ∈ pre, a.nextOffset ≤ b.base ∧ a.base < b.base)
-    (hl : ∀ a, pre.getLast? = some a → b.base = a.nextOffset) : WF (pre ++ [b]) := by
-  refine ⟨?_, ?_, ?_, wf.link.snoc hl⟩
+theorem WFC.of_append_right {pre post : List Seg} (wf : WFC (pre ++ post)) : WFC post := by
+  refine ⟨?_, fun s hs => wf.base_le s (by simp [hs]), (List.pairwise_append.mp wf.chain).2.1⟩
+  have := wf.sorted
+  rw [List.flatMap_append] at this
+  exact (List.pairwise_append.mp this).2.1
+
+theorem WF.of_append {pre post : List Seg} (wf : WF (pre ++ post)) : WF pre :=
+  ⟨wf.toWFC.of_append, wf.link.of_append⟩
+
+/-- Appending a well-formed segment that starts at or after the end of the list. -/
+theorem WFC.snoc {pre : List Seg} {b : Seg} (wf : WFC pre) (ok : SegOK b)
+    (hc : ∀ a ∈ pre, a.nextOffset ≤ b.base ∧ a.base < b.base) : WFC (pre ++ [b]) := by
+  refine ⟨?_, ?_, ?_⟩
   · simp only [List.flatMap_append, List.flatMap_cons, List.flatMap_nil, List.append_nil]
     refine List.pairwise_append.mpr ⟨wf.sorted, ok.sorted, ?_⟩
     intro r hr r' hr'
@@ -341,9 +354,15 @@ theorem WF.snoc {pre : List Seg} {b : Seg} (wf : WF pre) (ok : SegOK b)
     simp at hb'; subst hb'
     exact hc a ha
 
+/-- Appending a well-formed segment that starts where the list ends. -/
+theorem WF.snoc {pre : List Seg} {b : Seg} (wf : WF pre) (ok : SegOK b)
+    (hc : ∀ a ∈ pre, a.nextOffset ≤ b.base ∧ a.base < b.base)
+    (hl : ∀ a, pre.getLast? = some a → b.base = a.nextOffset) : WF (pre ++ [b]) :=
+  ⟨wf.toWFC.snoc ok hc, wf.link.snoc hl⟩
+
 /-! ### The three lookups under well-formedness -/
 
-theorem findSegmentIdx_of_split {segs pre post : List Seg} {x : Seg} (wf : WF segs) {o : Int}
+theorem findSegmentIdx_of_split {segs pre post : List Seg} {x : Seg} (wf : WFC segs) {o : Int}
     (h : segs = pre ++ x :: post) (hx : o < x.nextOffset) (hpre : ∀ a ∈ pre, a.nextOffset ≤ o) :
     findSegmentIdx segs o = some pre.length := by
   rw [findSegmentIdx_eq]
@@ -381,7 +400,7 @@ theorem first_seg_split (segs : List Seg) (o : Int) :
     simp only [decide_eq_true_eq] at this
     omega
 
-theorem findSegmentByBaseIdx_of_split {segs pre post : List Seg} {x : Seg} (wf : WF segs) {o : Int}
+theorem findSegmentByBaseIdx_of_split {segs pre post : List Seg} {x : Seg} (wf : WFC segs) {o : Int}
     (h : segs = pre ++ x :: post) (hx : o ≤ x.base) (hpre : ∀ a ∈ pre, a.base < o) :
     findSegmentByBaseIdx segs o = some pre.length := by
   rw [findSegmentByBaseIdx_eq]
